@@ -9,7 +9,7 @@ from fractions import Fraction
 import common
 from common import Outcome, frac_str, classify_exc
 
-NAMES = ['Build }} --> 99((extra))', 'open {{ only', 'plain', 'a: b', 'say "hi"', '{curly} {{x}}', '<b>bold</b>', 'cost $5 $name ${x}', 'id_7, 01.01.2024 00:00', 'ünï ✓', "it's", 'a --> b', 'x}} --> 7{{y', 'semi;colon', '</script>', '%d', '\\n back\\slash']
+NAMES = ['Build }} --> 99((extra))', 'open {{ only', 'plain', 'a: b', 'say "hi"', '{curly} {{x}}', '<b>bold</b>', 'cost $5 $name ${x}', 'id_7, 01.01.2024 00:00', 'ünï ✓', "it's", 'a --> b', 'x}} --> 7{{y', 'semi;colon', '</script>', '%d', '\\n back\\slash', 'Fix NaN handling', 'null', 'true or True', 'Infinity', 'undefined']
 NOW = datetime(2024, 1, 16, 12, 0)      # in the middle of the generated dates: finished, running and future tasks all occur
 
 
@@ -194,6 +194,10 @@ def judge(prop, case, rec, out):
         deps = sorted([rec['dhtmlx'][p]['id'], rec['dhtmlx'][u]['id']] for u in rec['members'] for p in rec['dhtmlx'][u]['preds'])
         mon['oneLinkPerDependency'] = sorted([l[1], l[2]] for l in rec['obsLinks']) == deps
         mon['progressInRange'] = all(0 <= Fraction(e[6]) <= 1 for e in rec['obsData'])
+        # every entry shows its own task: the name as it is (text in names cannot alter entries), the dates as formatted by the harness
+        byid = {rec['dhtmlx'][u]['id']: rec['dhtmlx'][u] for u in rec['members']}
+        mon['entryShowsItsTask'] = all(e[0] in byid and (byid[e[0]]['name'] is None or e[1] == byid[e[0]]['name']) and
+                                       e[3] == byid[e[0]]['start'] and e[4] == byid[e[0]]['end'] for e in rec['obsData'])
         # "grouped under its section": when the chart has more than one section (tasks without one form the section '-'), every task line
         # follows the header of its own section.  Headers are indented by two blanks, task lines by four, and a task line ends with its id
         # and dates - a single-line name cannot imitate either.
